@@ -10,7 +10,17 @@ pub(crate) type Internal<T> = Arc<Mutex<ChannelInternal<T>>>;
 
 /// Acquire mutex guard on channel internal for use in channel operations
 #[inline(always)]
+#[cfg_attr(kanal_verif, allow(unreachable_code))]
 pub(crate) fn acquire_internal<T>(internal: &'_ Internal<T>) -> MutexGuard<'_, ChannelInternal<T>> {
+    #[cfg(kanal_verif)]
+    {
+        #[cfg(not(feature = "std-mutex"))]
+        let guard = internal.lock();
+        #[cfg(feature = "std-mutex")]
+        let guard = internal.lock().unwrap();
+        crate::verif::guard();
+        return guard;
+    }
     #[cfg(not(feature = "std-mutex"))]
     return internal.lock();
     #[cfg(feature = "std-mutex")]
@@ -20,9 +30,21 @@ pub(crate) fn acquire_internal<T>(internal: &'_ Internal<T>) -> MutexGuard<'_, C
 /// Tries to acquire mutex guard on channel internal for use in channel
 /// operations
 #[inline(always)]
+#[cfg_attr(kanal_verif, allow(unreachable_code))]
 pub(crate) fn try_acquire_internal<T>(
     internal: &'_ Internal<T>,
 ) -> Option<MutexGuard<'_, ChannelInternal<T>>> {
+    #[cfg(kanal_verif)]
+    {
+        #[cfg(not(feature = "std-mutex"))]
+        let guard = internal.try_lock();
+        #[cfg(feature = "std-mutex")]
+        let guard = internal.try_lock().ok();
+        if guard.is_some() {
+            crate::verif::guard();
+        }
+        return guard;
+    }
     #[cfg(not(feature = "std-mutex"))]
     return internal.try_lock();
     #[cfg(feature = "std-mutex")]
